@@ -72,7 +72,7 @@ FUNCTIONS.update(
         BS + "SqlImpl.build_select": {"modifies": ("nd",), "tree_owner": True},
         BS + "SqlImpl.build_query": {"modifies": ("nd",), "tree_owner": True},
         BS + "SqlImpl.export": {"modifies": ("nd", "df"), "tree_owner": True, "why": "nd is the clone; df is the frame read from the database in this activation"},
-        BS + "create_aliases": {"modifies": ("nd", "num_occurrences")},
+        BS + "create_aliases": {"modifies": ("nd", "num_occurrences", "reserved")},
         BT + "TableImpl.from_resource": {"modifies": ("col",), "why": "uuids are only passed together with a data frame (collect), so res is constructed in this activation"},
         V + "collect": {"modifies": ("new._cache",), "why": "new = Table(...) builds its own cache object in Table.__init__"},
     }
@@ -81,7 +81,7 @@ FUNCTIONS.update(
 CALLEES = {
     "callee:compile_ast": {"returns_fresh_tuple": True, "modifies_args": (0,), "why": "every branch returns containers built in that activation or in the callee activation (checked: compile_ast's own frame obligation)"},
     "callee:rename_overwritten_cols": {"returns_fresh_tuple": True},
-    "callee:create_aliases": {"modifies_args": (0, 1)},
+    "callee:create_aliases": {"modifies_args": (0, 1, 2)},
     "callee:compile_col_expr": {"modifies_args": (0,)},
     "callee:build_select": {"modifies_args": (0,)},
     "callee:preprocess_arg": {"returns_fresh": True, "why": "result is a copy (checked by its own obligation); the known finding L1611 is tracked separately"},
